@@ -68,6 +68,25 @@ func NPMRange(r *rand.Rand) string {
 	for i := range alts {
 		alts[i] = alt()
 	}
+	if n >= 2 && r.Intn(3) == 0 {
+		// Alternatives that share a bound: the same version under operators
+		// that include and exclude it, with different other ends.
+		v := SemFull(r, false)
+		lo1, lo2 := SemFull(r, false), SemFull(r, false)
+		switch r.Intn(4) {
+		case 0:
+			alts[0], alts[1] = ">="+lo1+" <="+v, ">="+lo2+" <"+v
+		case 1:
+			alts[0], alts[1] = lo1+" - "+v, ">="+lo2+" <"+v
+		case 2:
+			alts[0], alts[1] = ">"+v+" <="+lo1, ">="+v+" <"+lo2
+		default:
+			alts[0], alts[1] = "<="+v, ">="+v+" <"+lo1
+		}
+		if r.Intn(2) == 0 {
+			alts[0], alts[1] = alts[1], alts[0]
+		}
+	}
 	return strings.Join(alts, Pick(r, " || ", "||", " ||"))
 }
 
